@@ -50,6 +50,12 @@ cart_var_set (SF_PRIVATE *psf, const SF_CART_INFO * info, size_t datasize)
 	if (info == NULL)
 		return SF_FALSE ;
 
+	/* The size field itself must lie inside the caller's buffer before it is read. */
+	if (datasize < offsetof (SF_CART_INFO, tag_text))
+	{	psf->error = SFE_BAD_CART_INFO_SIZE ;
+		return SF_FALSE ;
+		} ;
+
 	if (cart_min_size (info) > datasize)
 	{	psf->error = SFE_BAD_CART_INFO_SIZE ;
 		return SF_FALSE ;
